@@ -221,11 +221,25 @@ def dcm_ctor(chk, prog):
         if node in creates:
             buf = node.args[3] if len(node.args) > 3 else None
             seen.append((node, buf, dict(st), fa))
+        # view casting: X.view(subtype) makes the instance over X's values (NumPy carries dtype and strides along: nothing is reinterpreted)
+        if isinstance(fn, ast.Attribute) and fn.attr == "view" and node.args and isinstance(node.args[0], ast.Name) and f.params and node.args[0].id == f.params[0]:
+            base = fn.value
+            while True:
+                if isinstance(base, ast.Call) and isinstance(base.func, ast.Attribute) and base.func.attr == "copy" and not base.args:
+                    base = base.func.value
+                elif isinstance(base, ast.Call) and ast.unparse(base.func).split(".")[-1] in ("array", "asarray", "copy", "ascontiguousarray") and base.args:
+                    base = base.args[0]
+                else:
+                    break
+            seen.append((node, base, dict(st), fa, "view"))
     LayoutFacts(f, prog, callbacks={"call": on_call}).analyse()
     if not seen:
-        chk.error("CTOR-GATE.dcm: no reachable ndarray.__new__ call in DCM.__new__")
-    for node, buf, st, fa in seen:
-        buffer_layout(chk, f, node, buf, st)
+        chk.error("CTOR-GATE.dcm: no reachable ndarray.__new__ call or view cast in DCM.__new__")
+    for node, buf, st, fa, *kind in seen:
+        if kind:
+            chk.record("BUFFER-LAYOUT", "%s::view cast" % f.ref, "the instance is made by view casting: dtype and strides travel with the array, no raw buffer is reinterpreted")
+        else:
+            buffer_layout(chk, f, node, buf, st)
         ok = buf is not None and ("SO3CHK", fa.vn(buf, st)) in st["F"]
         site = ref + "::create"
         if ok:
